@@ -41,7 +41,7 @@ Print Assumptions C08_inv_join_run.
    not active, so a later re-invitation refreshes its stale record *)
 Theorem C08_invitation_refreshes_record : forall s w id,
   i_shape w = true -> aget N.eqb (i_wrapper w) (pwelcomes s) = None -> previewable s w = true ->
-  is_active s (i_gid w) = false -> i_id w = Some id ->
+  is_active s (i_gid w) = false -> i_collides w = false -> i_id w = Some id ->
   let s1 := fst (process_welcome s w) in
   exists r, aget N.eqb (i_gid w) (groups s1) = Some r /\ g_state r = GS_PENDING /\ g_epoch r = i_epoch w /\ g_data r = i_data w.
 Proof. exact invitation_refreshes_record. Qed.
